@@ -894,7 +894,7 @@ func (h *history) interlope(inflight *TxnSpec, reserved []uint32) {
 				busy[o.GotOff] = true
 			}
 		}
-		if o.Key != "" {
+		if o.T == "qkey" || o.T == "upskey" || o.T == "inskey" || o.T == "delkey" { // (the empty string is a key of the alphabet)
 			if off, ok := m.keyOffset(o.Key); ok {
 				busy[off] = true
 			}
@@ -912,7 +912,7 @@ func (h *history) interlope(inflight *TxnSpec, reserved []uint32) {
 	// two-transaction form of KF-KEY-CHECK-THEN-ACT (probed by the E2 key scenarios), so it uses other keys
 	inflightKeys := map[string]bool{}
 	for _, o := range inflight.Ops {
-		if o.Key != "" || o.T == "inskey" || o.T == "upskey" {
+		if o.T == "qkey" || o.T == "delkey" || o.T == "inskey" || o.T == "upskey" {
 			inflightKeys[o.Key] = true
 		}
 		for _, w := range o.W {
